@@ -6,6 +6,7 @@ CONSTANTS OutFile     \* ndjson file the generated histories are appended to (""
 
 AllCfgs   == [cache : BOOLEAN, async : BOOLEAN]
 SyncCfgs  == {c \in AllCfgs : ~c.async}
+AsyncCfgs == {c \in AllCfgs : c.async}
 
 AnyBatch(b)   == TRUE
 \* thinner batch families for test generation
